@@ -1386,6 +1386,23 @@ func foDFSBases(tier string) []foScenario {
 			}
 		}
 	}
+	// third family (both tiers): three Gets for an absent key with SyncRead on - the smallest setting in which an owner finds, in
+	// its critical-section read, the value a previous owner stored while a third Get is waiting for it
+	for _, variant := range []string{"F", "Of"} {
+		for bits := 0; bits < 4; bits++ {
+			su, fh := bits&1 != 0, bits&2 != 0
+			c := foCfg{Variant: variant, SU: su, SR: true, FH: fh, FUT: -1}
+			c.Backend = map[string]string{"F": "sharded", "Of": "shardedOf"}[variant]
+			if variant == "F" && bits%2 == 1 {
+				c.Backend = "sync"
+			}
+			for _, skip3 := range []bool{false, true} {
+				// (a third Get under SkipRead cannot be answered by its own critical-section read: it depends on what the owner publishes)
+				out = append(out, foScenario{Cfg: c, Keys: []foKey{{State: "absent", Val: 10}}, FaultAt: map[int]bool{}, Label: "dfs", DFS: true,
+					Threads: []foThread{{Key: 1}, {Key: 1}, {Key: 1, Skip: skip3}}, Builds: []foBuild{{OK: true}}})
+			}
+		}
+	}
 	return out
 }
 
@@ -1415,6 +1432,22 @@ func runFoDFS(o Opts, d *Driver, res *Result) {
 		return
 	}
 	order := rand.New(rand.NewSource(o.Seed * 7727)).Perm(len(bases))
+	perBase3 := 1 << 30
+	if o.Tier == "quick" {
+		// the few three-goroutine bases come first whatever the seed; the seeded slice of the others follows
+		var first, rest []int
+		for _, bi := range order {
+			if len(bases[bi].Threads) == 3 {
+				first = append(first, bi)
+			} else {
+				rest = append(rest, bi)
+			}
+		}
+		order = append(first, rest...)
+		if len(first) > 0 {
+			perBase3 = o.N * 2 / 5 / len(first) // (at most 40% of the executions go to them)
+		}
+	}
 	runs, complete := 0, 0
 	uniq := map[uint64]bool{}
 	for _, bi := range order {
@@ -1426,7 +1459,7 @@ func runFoDFS(o Opts, d *Driver, res *Result) {
 		exhausted := false
 		nBase := 0
 		for runs < o.N {
-			if timeUp() {
+			if timeUp() || (len(base.Threads) == 3 && nBase >= perBase3) {
 				break
 			}
 			var taken [][2]int
@@ -1479,6 +1512,9 @@ func runFoDFS(o Opts, d *Driver, res *Result) {
 				prefix[j] = taken[j][0]
 			}
 			prefix[i] = taken[i][0] + 1
+		}
+		if len(base.Threads) == 3 {
+			res.countN("dfs:schedules-of-three-goroutine-bases", nBase)
 		}
 		if exhausted {
 			complete++
